@@ -119,6 +119,8 @@ def run(repo: Repo, L: Ledger, tier: str):
                 def _bad_src(s_):
                     if isinstance(s_, ast.Constant) and s_.value is None:
                         return True
+                    if isinstance(s_, ast.IfExp):
+                        return _bad_src(s_.body) or _bad_src(s_.orelse)  # no gap under a condition on the data
                     if isinstance(s_, ast.Call) and dotted(s_.func) == "Gap":
                         vals_ = [try_fold(a_, default=NotImplemented) for a_ in s_.args]
                         return bool(vals_) and NotImplemented not in vals_ and vals_ != [200, "scaffold"]
